@@ -3,7 +3,7 @@
 (* command was also executed by /bin/sh + curl, what the loopback server then received is compared with what the model  *)
 (* predicts (validation of the sh / curl model itself) and with the original request.                                    *)
 EXTENDS Curl, IOUtils
-Obs == JsonDeserialize(IOEnv.OBS_FILE)      \* sequence of [cmd, orig, hasExec, nexec, exec]; a request = [method, target, headers [n, v], body]
+Obs == JsonDeserialize(IOEnv.OBS_FILE)      \* sequence of [cmd, orig, redact, hasExec, nexec, exec]; a request = [method, target, headers [n, v], body]
 (* two-level fan-out (block, then observation) so that TLC's workers judge in parallel *)
 VARIABLES i, blk
 NB == 64
@@ -13,7 +13,7 @@ JNext == \/ /\ blk = 0 /\ blk' \in 1..NB /\ i' = 0 /\ UNCHANGED el
 JSpec == JInit /\ [][JNext]_<<i, blk, el>>
 o == Obs[i]
 
-SameV == CmdVerdict(o.cmd, o.orig)
+SameV == CmdVerdict(o.cmd, o.orig, o.redact)
 Tk == Tokens(o.cmd)
 Rq == Interp(Tk.words)
 Definite == Tk.ok /\ ~Tk.op /\ ~Tk.glob /\ Rq.ok /\ ~Rq.unknown
